@@ -208,6 +208,9 @@ func c04Run(c *mc.Ctx) {
 		readerBFS(c, "C04", ReaderCfg{Kind: "default", DLen: 3<<20 + 11, Env: env, Sizes: []int{5, 1<<20 + 1, 1 << 21}, NoNeg: true}, 3, 0)
 	}
 	if c.Mine() {
+		readerBFS(c, "C04", ReaderCfg{Kind: "bytes", DLen: 1 << 17, SpareCap: 0, Sizes: []int{100, 1<<17 - 4096, 1<<17 - 100, 4096}, NoNeg: true}, 3, 0)
+	}
+	if c.Mine() {
 		readerBFS(c, "C04", ReaderCfg{Kind: "bytes", DLen: 2<<20 + 5, SpareCap: 1<<20 - 5, Sizes: []int{5, 1<<20 + 1, 1 << 21}, NoNeg: true}, 3, 0)
 	}
 	// 2. explicit-state search, bytes-backed
